@@ -212,7 +212,8 @@ class Representation:
         if simple:
             return word
 
-        return re.split("[()*]", word)
+        # re.split gives empty tokens for "", "(a)(b)", "a*"
+        return [gen for gen in re.split("[()*]", word) if gen]
 
     def __getitem__(self, word):
         return self.element(word)
